@@ -172,10 +172,28 @@ def run_case(case, ctx):
         scale = max(Eint) * mult
         tolH = 1e-7 * scale          # unit conversion constants of the library are CODATA-2014
         ident = list(range(N))
-        with ctx.lib("Aggregate build"):
+        # what the program did with the built aggregate before it asked for the operators: nothing; diagonalize() (as the pure-dephasing,
+        # pathway and mock-spectrum code does implicitly); first request made inside a basis context; a second build
+        first_use = ["plain", "diagonalize-first", "plain", "first-request-inside-a-context", "rebuild-then-diagonalize", "dipoles-first"][case["seed"] % 6]
+        with ctx.lib("Aggregate build (" + first_use + ")"):
             agg = build_agg(qr, case, ident, case["unit"], case["build_ctx"])
-            H = numpy.array(agg.get_Hamiltonian().data, dtype=float)
-            D = numpy.array(agg.get_TransitionDipoleMoment().data, dtype=float)
+            if first_use == "diagonalize-first":
+                agg.diagonalize()
+            elif first_use == "rebuild-then-diagonalize":
+                agg.get_TransitionDipoleMoment()
+                agg.rebuild(mult=case["mult"])
+                agg.diagonalize()
+            elif first_use == "first-request-inside-a-context":
+                Hc = agg.get_Hamiltonian()
+                with qr.eigenbasis_of(Hc):
+                    agg.get_TransitionDipoleMoment()
+            if first_use == "dipoles-first":
+                D = numpy.array(agg.get_TransitionDipoleMoment().data, dtype=float)
+                agg.diagonalize()
+                H = numpy.array(agg.get_Hamiltonian().data, dtype=float)
+            else:
+                H = numpy.array(agg.get_Hamiltonian().data, dtype=float)
+                D = numpy.array(agg.get_TransitionDipoleMoment().data, dtype=float)
             sigs = [tuple(i for i, x in enumerate(s) if x) for s in agg.elsigs]
             Nb = [int(x) for x in agg.Nb]
             wb = [int(agg.which_band[i]) for i in range(len(sigs))]
